@@ -443,7 +443,7 @@ pick_n(struct actx *x, int maxn)
 {
         static const int ns[] = { 1, 2, 3, 4, 5, 7, 8, 9, 15, 16, 17 };
         if (x->force_n)
-                return x->force_n;
+                return x->force_n > maxn ? maxn : x->force_n;
         int n = ns[(x->lenidx++ * 3 + rng_below(&x->r, 2)) % ARRAY_SZ(ns)];
         if (n > maxn)
                 n = maxn - (int) rng_below(&x->r, 2);
@@ -1662,7 +1662,7 @@ b_snow_f8(struct actx *x, struct call *c, const struct fdesc *f)
         struct mb *b = palloc(sizeof *b);
         const int multikey = f->p1 == 80 || f->p1 == 100;
         const int arrays = multikey || f->p1 == 0;
-        b->n = f->p1 == 80 ? 8 : (f->p1 == 0 || f->p1 == 100) ? pick_n(x, x->force_n ? MAXB : 16) : f->p1;
+        b->n = f->p1 == 80 ? 8 : (f->p1 == 0 || f->p1 == 100) ? pick_n(x, x->force_n && x->mode == M_LIMIT ? MAXB : 16) : f->p1;
         pick_lens(x, b->len, b->n, 1, 4200);
         for (int i = 0; i < b->n; i++) {
                 if (i == 0 || multikey) {
@@ -2322,7 +2322,7 @@ run_valid(struct actx *x, const struct fdesc *f, struct call *c)
 }
 
 static void
-run_null(struct actx *x, const struct fdesc *f, struct call *c, int argi, int elem)
+run_null(struct actx *x, const struct fdesc *f, struct call *c, int argi, int elem, int force_n)
 {
         uint64_t ret = 1;
         char what[96];
@@ -2330,7 +2330,7 @@ run_null(struct actx *x, const struct fdesc *f, struct call *c, int argi, int el
         x->null_arg = argi;
         x->null_elem = elem;
         x->curlim = NULL;
-        x->force_n = 0;
+        x->force_n = force_n;
         if (build_call(x, c, f))
                 return;
         if (argi >= c->v.n || c->v.a[argi].obj == -1)
@@ -2689,9 +2689,15 @@ eng_abi(void)
                                         for (int i = 0; i < av.n && !internal_kernel; i++) {
                                                 if (av.a[i].obj == -1 || av.a[i].null_ok)
                                                         continue;
-                                                run_null(x, f, &c, i, -1);
-                                                if (av.a[i].nelem > 0)
-                                                        run_null(x, f, &c, i, (int) ((round + i) % av.a[i].nelem));
+                                                run_null(x, f, &c, i, -1, 0);
+                                                if (av.a[i].nelem > 0) {
+                                                        run_null(x, f, &c, i, (int) ((round + i) % av.a[i].nelem), 0);
+                                                        /* systematically: the largest buffer count, NULL in the last element
+                                                         * (run_null clamps the index) and, every other round, in the first or
+                                                         * in the element just before the last */
+                                                        run_null(x, f, &c, i, 1 << 20, MAXB);
+                                                        run_null(x, f, &c, i, (round & 1) ? 0 : MAXB - 2, MAXB);
+                                                }
                                         }
                                         for (int li = 0; li < nlim; li++)
                                                 run_limit(x, f, &c, li, &lims[li]);
